@@ -685,6 +685,100 @@ def h_first_use(w, nthreads):
 
 
 # --------------------------------------------------------------------------
+# module-ns harness: simultaneous first renders of templates that use a Python module as a namespace; the module is
+# not imported yet and its body passes scheduling points.  The import system's per-module lock is modelled by a
+# scheduler lock around __import__ (a real lock would stall the baton scheduler).
+
+MODNS_TEXTS = [
+    '<%namespace name="h" module="mc.c16_nsmod"/>[${h.greet(x)}${h.other()}]',
+    '<%namespace module="mc.c16_nsmod" import="*"/>[${greet(x)}${other()}]',
+    '<%namespace name="h" module="mc.c16_nsmod"/><%def name="d()">${h.greet(x)}</%def>[${d()}]',
+]
+MODNS_SOLO = ["[hello 0o]", "[hello 1o]", "[hello 2]"]
+
+
+class ModNsWorld:
+    def __init__(self, s):
+        import builtins
+        import sys
+
+        from mako import lookup as mlookup, runtime as mruntime
+        import mc.c16_cache as cc
+
+        self.s = s
+        self.sm = seams.Seams()
+        cc.SCHED = s
+        self.cc = cc
+        sys.modules.pop("mc.c16_nsmod", None)
+        if hasattr(sys.modules.get("mc"), "c16_nsmod"):
+            delattr(sys.modules["mc"], "c16_nsmod")
+        locks = {}
+        real_import = builtins.__import__
+
+        def sched_import(name, *a, **k):
+            if not name.startswith("mc.c16_nsmod"):
+                return real_import(name, *a, **k)
+            lk = locks.setdefault(name, s.lock())
+            lk.acquire()
+            try:
+                return real_import(name, *a, **k)
+            finally:
+                lk.release()
+
+        mruntime.__import__ = sched_import  # a module global shadows the builtin (removed again in close())
+        self.mruntime = mruntime
+        import threading as _threading
+
+        self.sm.set(mlookup, "threading", seams.Forward(_threading, {"Lock": _lock_factory(s), "RLock": _lock_factory(s)}))
+        self.lookup = mlookup.TemplateLookup()
+        for i, t in enumerate(MODNS_TEXTS):
+            self.lookup.put_string("/m%d.html" % i, t)
+
+    def close(self):
+        self.sm.restore()
+        self.cc.SCHED = None
+        if "__import__" in vars(self.mruntime):
+            del self.mruntime.__import__
+
+
+def h_modns(w, nthreads):
+    ts = [w.lookup.get_template("/m%d.html" % i) for i in range(nthreads)]
+
+    def mk(i):
+        return lambda: ts[i].render(x=str(i))
+
+    def finish(ex):
+        bad = _results_ok(ex, nthreads)
+        if bad:
+            return [("module-ns:exception", "simultaneous first renders through a module namespace do not raise", "output", bad)]
+        v = []
+        for i in range(nthreads):
+            if ex.results[i][1] != MODNS_SOLO[i]:
+                v.append(("module-ns:crosstalk", "each render produces exactly its solo output", MODNS_SOLO[i], ex.results[i][1]))
+        return v
+
+    return [mk(i) for i in range(nthreads)], finish
+
+
+def run_modns(spec, prefix, record=False):
+    name, nthreads, fine = spec
+    s = sched.Scheduler(prefix, record_trace=record, horizon=20000)
+    w = ModNsWorld(s)
+    try:
+        threads, finish = h_modns(w, nthreads)
+        for t in threads:
+            s.spawn(t)
+        ex = s.run()
+        if ex.deadlock:
+            return ex, [("module-ns:blocked-thread", "no thread is left blocked", "all threads finish", ex.deadlock)]
+        if ex.horizon:
+            return ex, [("module-ns:horizon", "execution finishes within the step horizon", "finish", "horizon")]
+        return ex, finish(ex)
+    finally:
+        w.close()
+
+
+# --------------------------------------------------------------------------
 # running one schedule
 
 
@@ -720,6 +814,8 @@ def trace_prefixes(kind):
 def run_one(spec, prefix, record=False):
     if spec[0] == "first-use":
         return run_first_use(spec, prefix, record)
+    if spec[0] == "module-ns":
+        return run_modns(spec, prefix, record)
     return _run_one(spec, prefix, record)
 
 
@@ -814,6 +910,8 @@ def specs(tier):
     out.append(("render", 2, False, None))
     out.append(("render", 2, True, 1))  # ~830 line-level points: bound 2 would be ~10^5 executions of 50 ms each
     out.append(("render-lru", 2, True, 1))  # bounded lookup: the unlocked LRU caches (templates, URIs) under concurrent renders
+    out.append(("module-ns", 2, False, None))  # all interleavings of two first renders through a module namespace
+    out.append(("module-ns", 3, False, 2 if q else 3))
     out.append(("first-use", 2, True, 1 if q else 2))  # freshly imported library per execution, every line of filters.py / util.py
     if not q:
         out.append(("first-use", 3, True, 1))
